@@ -23,3 +23,50 @@ package bsupport
 //@   loop 1: invariant forall j int :: 0 <= j && j <= rangeindex ==> base.tlog[old(base.tlogn) + j] == ref(transforms[j]) && base.tres[old(base.tlogn) + j] == 1
 //@   loop 1: invariant forall i int :: 0 <= i && i < old(base.tlogn) ==> base.tlog[i] == old(base.tlog[i]) && base.tres[i] == old(base.tres[i])
 //@   loop 1: invariant forall j int :: 0 <= j && j < len(transforms) ==> transforms[j] != nil
+
+// ==== configuration: verify => construct (C16) ===================================================================================
+// tcok(c, s): the transform configuration c has been accepted by its VerifyConfig for schema s. Every VerifyConfig ensures it
+// on success; every constructor requires it and must be free of reachable aborts under it.
+//@ pure func tcok(c bconfig.LogTransformConfig, s base.LogSchema) bool
+//@ extern func (c bconfig.LogTransformConfig) VerifyConfig(schema base.LogSchema) error
+//@   ensures result == nil ==> tcok(c, schema)
+//@ extern func (c bconfig.LogTransformConfig) NewTransform(schema base.LogSchema, parentLogger logger.Logger, customCounterRegistry base.LogCustomCounterRegistry) base.LogTransform
+//@   requires[verified-before-constructed] tcok(c, schema)
+//@   ensures  result != nil
+//@ extern func (c bconfig.LogTransformConfig) GetType() string
+//@ pure func rwcok(c bconfig.LogRewriterConfig, s base.LogSchema, hasNext bool) bool
+//@ extern func (c bconfig.LogRewriterConfig) VerifyConfig(schema base.LogSchema, hasNext bool) error
+//@   ensures result == nil ==> rwcok(c, schema, hasNext)
+//@ extern func (c bconfig.LogRewriterConfig) NewRewriter(schema base.LogSchema, next base.LogRewriter) base.LogRewriter
+//@   requires[verified-before-constructed] rwcok(c, schema, next != nil)
+//@   ensures  result != nil
+
+//@ pure func tcsok(cs []bconfig.LogTransformConfigHolder, s base.LogSchema) bool := forall i int :: 0 <= i && i < len(cs) ==> cs[i].Value != nil && tcok(cs[i].Value, s)
+//@ func VerifyTransformConfigs(transformConfigs []bconfig.LogTransformConfigHolder, schema base.LogSchema, header string) error
+//@   property C16
+//@   requires forall i int :: 0 <= i && i < len(transformConfigs) ==> transformConfigs[i].Value != nil
+//@   modifies nothing
+//@   ensures[every-nested-step-verified] result == nil ==> tcsok(transformConfigs, schema)
+//@   loop 1: invariant -1 <= rangeindex && rangeindex < len(transformConfigs) && forall i int :: 0 <= i && i <= rangeindex ==> tcok(transformConfigs[i].Value, schema)
+//@ func NewTransformsFromConfig(transformConfigs []bconfig.LogTransformConfigHolder, schema base.LogSchema, parentLogger logger.Logger, customCounterHost base.LogCustomCounterRegistry) []base.LogTransformFunc
+//@   property C16
+//@   requires[verified-before-constructed] tcsok(transformConfigs, schema)
+//@   modifies nothing
+//@   ensures  len(result) == len(transformConfigs)
+//@   loop 1: invariant -1 <= rangeindex && rangeindex < len(transformConfigs) && len(transforms) == len(transformConfigs) && isfresh(transforms)
+
+// rewriter chains: element i is verified with hasNext = (i is not the last) and constructed with next != nil iff i is not the last
+//@ pure func rwcsok(cs []bconfig.LogRewriterConfigHolder, s base.LogSchema) bool := forall i int :: 0 <= i && i < len(cs) ==> cs[i].Value != nil && rwcok(cs[i].Value, s, i < len(cs) - 1)
+//@ func VerifyRewriterConfigs(rewriterConfigs []bconfig.LogRewriterConfigHolder, schema base.LogSchema, header string) error
+//@   property C16
+//@   requires forall i int :: 0 <= i && i < len(rewriterConfigs) ==> rewriterConfigs[i].Value != nil
+//@   modifies nothing
+//@   ensures[every-rewriter-verified] result == nil ==> rwcsok(rewriterConfigs, schema)
+//@   loop 1: invariant -1 <= rangeindex && rangeindex < len(rewriterConfigs) && lastI == len(rewriterConfigs) - 1
+//@   loop 1: invariant forall i int :: 0 <= i && i <= rangeindex ==> rwcok(rewriterConfigs[i].Value, schema, i < len(rewriterConfigs) - 1)
+//@ func NewRewritersFromConfig(rewriterConfigs []bconfig.LogRewriterConfigHolder, schema base.LogSchema) base.LogRewriter
+//@   property C16
+//@   requires[verified-before-constructed] rwcsok(rewriterConfigs, schema)
+//@   modifies nothing
+//@   ensures  len(rewriterConfigs) > 0 ==> result != nil
+//@   loop 1: invariant -1 <= i && i < len(rewriterConfigs) && (i < len(rewriterConfigs) - 1 ==> head != nil) && (i == len(rewriterConfigs) - 1 ==> head == nil)
